@@ -143,5 +143,68 @@ func TestC05_GeneratedCode(t *testing.T) {
 		if ev.WantSample(c05) {
 			ev.Sample(c05, c05case{Sources: setSources(set)})
 		}
+		func() {
+			// ---- regeneration over an older output (runs last: it edits the sources) ----
+			// `spec generate` normally writes next to the sources, over the files of the previous
+			// run. A same-length edit of a scalar type (int32<->int64, uint16<->uint32, float32<->float64)
+			// is applied to one field; generating in place over the old output and generating the
+			// edited sources into an empty directory must give identical files.
+			sibling := map[string]string{"int16": "int32", "int32": "int64", "int64": "int16", "uint16": "uint32", "uint32": "uint64", "uint64": "uint16", "float32": "float64", "float64": "float32"}
+			type site struct {
+				p    *schema.Package
+				f    *schema.Field
+				name string
+			}
+			var sites []site
+			for _, p := range set.Pkgs {
+				for _, f := range p.Files {
+					for _, d := range f.Defs {
+						if d.Kind != schema.DefMessage && d.Kind != schema.DefStruct {
+							continue
+						}
+						for i := range d.Fields {
+							if _, ok := sibling[d.Fields[i].Type.Name]; ok && d.Fields[i].Type.Pkg == "" {
+								sites = append(sites, site{p, &d.Fields[i], d.Name + "." + d.Fields[i].Name})
+							}
+						}
+					}
+				}
+			}
+			if len(sites) == 0 {
+				ev.Label(c05, "regenerate-over-old-output:no-site", 1)
+				return
+			}
+			st := sites[rapid.IntRange(0, len(sites)-1).Draw(rt, "editsite")]
+			from := st.f.Type.Name
+			st.f.Type.Name = sibling[from]
+			if err := ws.RewriteSources(st.p, schema.Style{S: s}); err != nil {
+				rt.Fatalf("infrastructure: %v", err)
+			}
+			kase2 := c05case{Sources: setSources(set)}
+			if r := ws.Generate(st.p.ID, ""); r.Exit != 0 {
+				ev.Label(c05, "regenerate-over-old-output:edited-schema-rejected", 1)
+				return
+			}
+			inPlace, err := readGenerated(filepath.Join(ws.Dir, st.p.ID))
+			if err != nil {
+				rt.Fatalf("infrastructure: %v", err)
+			}
+			dst := filepath.Join(ws.Dir, "fresh_"+st.p.ID)
+			os.MkdirAll(dst, 0o755)
+			if r := ws.Generate(st.p.ID, dst); r.Exit != 0 {
+				kase2.Output = clipOut(r.Out)
+				ev.Violation(rt, c05, "regeneration-failed", kase2, "generation of the edited %s into an empty directory failed although generation in place succeeded", st.p.ID)
+			}
+			fresh, err := readGenerated(dst)
+			if err != nil {
+				rt.Fatalf("infrastructure: %v", err)
+			}
+			for name, content := range fresh {
+				if inPlace[name] != content {
+					ev.Violation(rt, c05, "regeneration-over-old-output-differs", kase2, "after changing %s from %s to %s, generating over the previous output leaves a %s that differs from generating the same sources into an empty directory (stale output kept?)", st.name, from, sibling[from], name)
+				}
+			}
+			ev.Label(c05, "regenerate-over-old-output:checked", 1)
+		}()
 	})
 }
